@@ -375,7 +375,7 @@ func planC14(w *World, spec RunSpec) {
 		w.Cfg.Ndist = 120 + s.Intn(500, "ndist")
 		if s.Bool("slice-heavy") {
 			// several sliced revisions alive or archived while the template keeps changing
-			w.Scenario = GenPKG(w, 6, "final-delete", "slice-heavy", "squatter")
+			w.Scenario = GenPKG(w, 6, "final-delete", "slice-heavy", "squatter", "namesake")
 			if s.Bool("paced") {
 				// every edit waits for the rollout of the previous one: older sliced revisions are
 				// archived (and still exist) when the next garbage collection decision is taken
@@ -402,7 +402,7 @@ func planC14(w *World, spec RunSpec) {
 				return
 			}
 		} else {
-			w.Scenario = GenPKG(w, 5, "final-delete", "squatter")
+			w.Scenario = GenPKG(w, 5, "final-delete", "squatter", "namesake")
 		}
 	} else if spec.Index%4 == 3 {
 		s := w.Scn
